@@ -1,12 +1,121 @@
-/- Driver ops for the Codec model. Stub until the model lands. -/
+/- Driver ops for the Codec model (C16). -/
 import Lean.Data.Json
 import PypyrModel.Json
+import PypyrModel.Codec
 
 namespace Pypyr.OpCodec
 open Lean (Json)
+open Pypyr.Codec
 
-/-- Handle one request object (already parsed); `Except.error` = protocol-level reject. -/
-def handle (_op : String) (_j : Json) : Except String Json :=
-  .error "not implemented"
+def fuelOf (j : Json) : Nat :=
+  match j.getObjVal? "fuel" with
+  | .ok f => (jsonNat? f).toOption.getD 64
+  | .error _ => 64
+
+def formatOf (j : Json) : Except String Format := do
+  match ← (← j.getObjVal? "format").getStr? with
+  | "json" => pure .json
+  | "yaml" => pure .yaml
+  | "toml" => pure .toml
+  | s => throw s!"unknown format {s}"
+
+mutual
+/-- TOML-representable below the top level: no None, string keys. -/
+def isToml : Val → Bool
+  | .bool _ => true
+  | .int _ => true
+  | .flt _ _ => true
+  | .str _ => true
+  | .list xs => isTomlList xs
+  | .dict kvs => isTomlPairs kvs
+  | _ => false
+def isTomlList : List Val → Bool
+  | [] => true
+  | x :: xs => isToml x && isTomlList xs
+def isTomlPairs : List (Val × Val) → Bool
+  | [] => true
+  | (k, v) :: rest => Json.isStr k && isToml v && isTomlPairs rest
+end
+
+/-- What the real serialiser of each format accepts (the ideal codec's `enc`). -/
+def representable (f : Format) (d : Val) : Bool :=
+  match f with
+  | .json => Json.isJson true d
+  | .yaml => isDoc d
+  | .toml => match d with
+    | .dict _ => isToml d
+    | _ => false
+
+def idealFor (f : Format) : Codec Val :=
+  { enc := fun d => if representable f d then some d else none, dec := some }
+
+/-- Errors: OutOfDomain / OutOfFuel are protocol-level rejects, never observations. -/
+def excResult {α} (f : α → Json) (r : Except Exc α) : Except String Json :=
+  match r with
+  | .error e =>
+    if e.name == "OutOfDomain" then .error ("out of domain: " ++ e.msg)
+    else if e.name == "OutOfFuel" then .error "out of fuel"
+    else .ok (Json.mkObj [("err", e.toJson)])
+  | .ok a => .ok (Json.mkObj [("ok", f a)])
+
+def prToJson : Json.PR Val → Json
+  | .ok v _ => Json.mkObj [("ok", v.toJson)]
+  | .bad => Json.mkObj [("bad", true)]
+  | .outside => Json.mkObj [("outside", true)]
+
+/-- ops:
+    `fmtdoc`     {ctx, doc}                 → formatted document
+    `fileformat` {format, ctx, doc}         → ObjectRewriter at value level (ideal codec)
+    `write`      {format, ctx}              → {path, payload} handed to the serialiser, or err
+    `writefetch` {format, ctx, ctx2}        → context after filewrite(ctx) then fetch(ctx2)
+    `parser`     {format, doc}              → file context parser on a file holding doc
+    `jsonprint`  {doc}                      → text of json.dump(doc, indent=2, ensure_ascii=False)
+    `jsonparse`  {text}                     → json.loads(text): ok doc | bad | outside -/
+def handle (op : String) (j : Json) : Except String Json := do
+  match op with
+  | "fmtdoc" =>
+    let ctx ← Ctx.ofJson (← j.getObjVal? "ctx")
+    let d ← Val.ofJson (← j.getObjVal? "doc")
+    if !isDoc d then throw "not a document tree"
+    excResult Val.toJson (fmtDoc (fuelOf j) ctx d)
+  | "fileformat" =>
+    let f ← formatOf j
+    let ctx ← Ctx.ofJson (← j.getObjVal? "ctx")
+    let d ← Val.ofJson (← j.getObjVal? "doc")
+    if !representable f d then throw "source document not representable in the format"
+    excResult Val.toJson (fileFormatDoc (idealFor f) (fuelOf j) ctx d)
+  | "write" =>
+    let f ← formatOf j
+    let ctx ← Ctx.ofJson (← j.getObjVal? "ctx")
+    excResult (fun (pp : String × Val) => Json.mkObj [("path", pp.1), ("payload", pp.2.toJson),
+        ("representable", representable f pp.2)])
+      (writePayload f (fuelOf j) ctx)
+  | "writefetch" =>
+    let f ← formatOf j
+    let ctx ← Ctx.ofJson (← j.getObjVal? "ctx")
+    let ctx2 ← Ctx.ofJson (← j.getObjVal? "ctx2")
+    let c := idealFor f
+    match fileWrite f c (fuelOf j) ctx [] with
+    | .error e =>
+      if e.name == "OutOfDomain" then throw ("out of domain: " ++ e.msg)
+      else if e.name == "OutOfFuel" then throw "out of fuel"
+      else pure (Json.mkObj [("write", Json.mkObj [("err", e.toJson)])])
+    | .ok files =>
+      let r ← excResult Ctx.toJson (fetch f c (fuelOf j) ctx2 files)
+      pure (Json.mkObj [("write", Json.mkObj [("ok", Json.arr (files.map fun (p, v) =>
+              Json.arr #[Json.str p, v.toJson]).toArray)]), ("fetch", r)])
+  | "parser" =>
+    let f ← formatOf j
+    let d ← Val.ofJson (← j.getObjVal? "doc")
+    if !isDoc d then throw "not a document tree"
+    excResult Val.toJson (fileParser (idealFor f) d)
+  | "jsonprint" =>
+    let d ← Val.ofJson (← j.getObjVal? "doc")
+    if !Json.isJson true d then throw "not in the JSON domain"
+    pure (Json.mkObj [("text", Json.str (String.ofList (Json.print d)))])
+  | "jsonparse" =>
+    let t ← (← j.getObjVal? "text").getStr?
+    pure (prToJson (Json.parse t.toList))
+  | _ => .error s!"unknown op {op}"
 
 end Pypyr.OpCodec
